@@ -1,5 +1,7 @@
 package font
 
+import "strings"
+
 // Font represents a PDF font
 type Font struct {
 	Name     string
@@ -92,8 +94,9 @@ func (f *Font) DecodeString(data []byte) string {
 		return NormalizeUnicode(decoded)
 	}
 
-	// Priority 4: Fall back to raw bytes as string
-	decoded = string(data)
+	// Priority 4: Fall back to raw bytes as string. Bytes that are not valid
+	// UTF-8 are replaced so that callers always receive valid UTF-8.
+	decoded = strings.ToValidUTF8(string(data), "\uFFFD")
 	return NormalizeUnicode(decoded)
 }
 
